@@ -347,6 +347,32 @@ func (c *Ctx) ruleCondStores() {
 			rep.bad("R-CONDSTORE", "Cond", "records Valid verdict", c.p.pos(fn.Pos()), "the constructor does not record Valid()'s error")
 		}
 	}
+	// Cond builds through newCondition on every path, with its own three arguments: whatever is
+	// wrong with one of them, the others are offered (and kept, for a setter history to complete)
+	if fn := c.p.ByName["Cond"]; fn != nil {
+		var problems []string
+		calls := c.findCalls(fn, "newCondition")
+		if len(calls) != 1 {
+			problems = append(problems, fmt.Sprintf("expected one call of newCondition, found %d", len(calls)))
+		} else {
+			for _, ret := range c.returnsOf(fn) {
+				if !(calls[0].Block() == ret.Block() || calls[0].Block().Dominates(ret.Block())) {
+					problems = append(problems, c.p.instrPos(ret)+": a return is reached without newCondition having been called (an unusable argument makes the constructor drop the others)")
+				}
+			}
+			for k, a := range calls[0].Call.Args {
+				if p, isP := a.(*ssa.Parameter); !isP || k >= len(fn.Params) || p != fn.Params[k] {
+					problems = append(problems, fmt.Sprintf("argument %d of newCondition is not Cond's own argument %d", k, k))
+				}
+			}
+		}
+		if len(problems) == 0 {
+			rep.ok("R-CONDSTORE", "Cond", "builds through newCondition", c.p.pos(fn.Pos()), "newCondition is called with Cond's three arguments on every path")
+		} else {
+			sort.Strings(problems)
+			rep.bad("R-CONDSTORE", "Cond", "builds through newCondition", c.p.pos(fn.Pos()), strings.Join(uniq(problems), "; "))
+		}
+	}
 	// the constructor offers the three arguments and nothing else happens in between: no error is
 	// recorded ahead of the expression (which would make the expression filter refuse a good value)
 	if fn := c.p.ByName["newCondition"]; fn != nil {
